@@ -6,6 +6,7 @@ import (
 	"bytes"
 	"fmt"
 	"math/rand"
+	"reflect"
 	"strings"
 	"testing"
 
@@ -65,6 +66,16 @@ func sameStep(a, b wh.Result, masked bool) string {
 		}
 	}
 	return ""
+}
+
+// sameExt reports whether two extension values are the same object (the
+// function-typed test extension is not comparable with ==).
+func sameExt(a, b wsutil.SendExtension) bool {
+	if a == nil || b == nil {
+		return a == nil && b == nil
+	}
+	va, vb := reflect.ValueOf(a), reflect.ValueOf(b)
+	return va.Type() == vb.Type() && va.Pointer() == vb.Pointer()
 }
 
 func head(b []byte) []byte {
@@ -130,7 +141,16 @@ func TestWriterReset(t *testing.T) {
 
 		rec1 := tx.NewRec()
 		planned := drawFailPlan(t, "h1", rec1, 55)
-		w := wh.New(cfg1, rec1)
+		// The application's own extension list: a long-lived slice handed over
+		// with the spread operator, as SetExtensions(list...) invites.
+		list := wh.Extensions(cfg1.Ext)
+		snapshot := append([]wsutil.SendExtension(nil), list...)
+		bare := cfg1
+		bare.Ext = 0
+		w := wh.New(bare, rec1)
+		if len(list) > 0 {
+			w.SetExtensions(list...)
+		}
 		ex := wh.NewExec(w, rec1)
 		size0 := w.Size()
 		o := wh.Opts{SrcErr: true}
@@ -187,6 +207,20 @@ func TestWriterReset(t *testing.T) {
 			ex.Retarget(w, rec2)
 		}
 		c.Side2, c.Op2 = side2, op2
+		// Whatever the reset did to the writer, the caller's list is the caller's.
+		for i := range list {
+			if !sameExt(list[i], snapshot[i]) {
+				t.Fatalf("after %s the caller's extension slice passed as SetExtensions(list...) was modified: element %d is now %v\ncase: %s", mode, i, list[i], hx.JSON(c))
+			}
+		}
+		// Re-attach the same list for H2 (Reset dropped it): a fresh writer given
+		// the list sets the bits it dictates, the reset writer must as well.
+		reattach := mode != "resetop" && len(list) > 0 && rapid.Bool().Draw(t, "reattach")
+		if reattach {
+			w.SetExtensions(list...)
+			ext2 = cfg1.Ext
+			hx.Class("h2/extensions-reattached")
+		}
 
 		hx.Class("mode/" + mode)
 		if planned {
@@ -255,7 +289,14 @@ func TestWriterReset(t *testing.T) {
 		for _, twinCfg := range cands {
 			recT := tx.NewRec()
 			recT.FailAt, recT.Short = failAt, short
+			if reattach {
+				twinCfg.Ext = 0
+			}
 			twin := wh.New(twinCfg, recT)
+			if reattach {
+				twin.SetExtensions(list...)
+				twinCfg.Ext = cfg1.Ext
+			}
 			if twin.Size() != sizeAfter {
 				continue
 			}
